@@ -2,7 +2,7 @@ from .core import BASE_TRUST, REPO
 
 META = {
     "category": "proof",
-    "text": "Lean 4 theorems over a model of the cursor state machine (all row lists, pointers, int64 offsets and operation histories): pointer invariant, exact positioning of FETCH, WHILE IN visits every row once in order, COUNT / IS OPEN / IS IN RANGE agree with the state, closed / reopened / undeclared cursors are errors, rows handed out between OPEN and CLOSE are those of the OPEN-time result. The arithmetic of (*Cursor).Fetch / IsInRange / Count is regenerated from lib/query/cursor.go on every run and proved equal to the model; the rest is tied by a differential run of the real processor (SQL text) against the compiled model, with direct law checks. Exact positioning is proved under the hypothesis that `index + number` of FETCH RELATIVE fits int64 (partial): the full statement is false for the current code (counter-example theorem, reported by the harness as law fetch_spec_relative_overflow)",
+    "text": "Lean 4 theorems over a model of the cursor state machine (all row lists, pointers, int64 offsets and operation histories): pointer invariant, exact positioning of FETCH, WHILE IN visits every row once in order, COUNT / IS OPEN / IS IN RANGE agree with the state, closed / reopened / undeclared cursors are errors, rows handed out between OPEN and CLOSE are those of the OPEN-time result. The arithmetic of (*Cursor).Fetch / IsInRange / Count is regenerated from lib/query/cursor.go on every run and proved equal to the model; the rest is tied by a differential run of the real processor (SQL text) against the compiled model, with direct law checks. Exact positioning (fetch_spec) is proved in full for every int64 offset; the int64 overflow of FETCH RELATIVE (finding F9, fixed in /repo 63b833c) stays under watch as harness law fetch_spec_relative_overflow",
     "design_ref": "DESIGN.md section 5, C16",
     "note": "trusted: Lean kernel (axioms propext, Classical.choice, Quot.sound only), the go/ast translator extract/cursorfetch (fails on any construct outside its subset), harness + driver; the view is a value in the model: that the implementation never aliases it with the table is what the differential run with interleaved DML checks; a Go slice has fewer than 2^63-1 records (hypothesis LenOK)",
     "technique": "Lean 4 machine-checked proof over a model whose integer arithmetic is regenerated from the Go source + differential correspondence with the Go implementation",
@@ -15,7 +15,7 @@ def run(run):
         "Go int is 64 bit (model: wrap64 at every + and - of cursor.go); a view holds fewer than 2^63-1 records (LenOK)",
         "the result of the cursor's query at OPEN time enters the model as an argument of `open` (computed by the harness from its own shadow copy of the table, not by csvq); query evaluation itself is C03/C07's subject",
         "cursor names in the correspondence run are ASCII (the model upper-cases with Char.toUpper)",
-        "fetch_spec holds under NoOverflow (index + number within int64) only: see fetch_spec_counterexample",
+        "the number of FETCH RELATIVE is an int64 (NumberOK; FetchCursor converts with int(i.Raw()))",
     ]
     run.regen("cursorfetch", ["go", "-C", "extract/cursorfetch", "run", ".", str(REPO / "lib" / "query" / "cursor.go")],
               "Csvq/Gen/CursorFetch.lean")
